@@ -5,6 +5,7 @@ import (
 	crand "crypto/rand"
 	"encoding/base64"
 	"fmt"
+	"os"
 	"regexp"
 	"strconv"
 	"strings"
@@ -114,9 +115,9 @@ func corrSchemes(prop, outDir string, seed uint64, tier string) *report {
 	rep := newReport(prop, seed, tier)
 	r := newRng(seed)
 	csN := newCaseSet(outDir, prop+"_newhash", []string{"GC.Schemes.Keys", "GC.Schemes.Checks", "GC.Schemes.SchemeCases", "GC.Schemes.NewHash", "GC.Codec.Types"},
-		"Z * bytes * bytes * list Z * list kdf_entry * bytes * nres", "ok_newhash", 1200)
+		"Z * bytes * bytes * list Z * list kdf_entry * bytes * nres", "ok_newhash", 500)
 	csC := newCaseSet(outDir, prop+"_check", []string{"GC.Schemes.Keys", "GC.Schemes.Checks", "GC.Schemes.SchemeCases", "GC.Codec.Types"},
-		"Z * bytes * bytes * list kdf_entry * bytes * verdict", "ok_check", 1200)
+		"Z * bytes * bytes * list kdf_entry * bytes * verdict", "ok_check", 500)
 	sink := &checkCaseSink{cs: csC, rep: rep}
 	old := crand.Reader
 	defer func() { crand.Reader = old }()
@@ -279,7 +280,15 @@ func c02Cases(rep *report, r *rng, sink *checkCaseSink, s *schemeOps, h, pw stri
 		rep.Distribution["c02_exhaustive_"+s.name] = 1
 	}
 	never := func(h2, pw2, kind string, toCoq bool) {
-		if rc := recognise(s.name, h2); rc.ok && (tooExpensive(s.name, rc) || s.name == "argon2" && len(rc.p.nums) >= 3 && (rc.p.nums[0] > 2048 || rc.p.nums[1] > 12) || s.name == "bcrypt" && rc.p.nums[0] > 6) {
+		if os.Getenv("VERIF_DEBUG") != "" {
+			t0 := time.Now()
+			defer func() {
+				if d := time.Since(t0); d > 200*time.Millisecond {
+					fmt.Fprintln(os.Stderr, "slow never:", s.name, kind, d, h2)
+				}
+			}()
+		}
+		if rc := recognise(s.name, h2); rc.ok && (tooExpensive(s.name, rc) || s.name == "argon2" && len(rc.p.nums) >= 3 && (rc.p.nums[0] > 2048 || rc.p.nums[1] > 4 || rc.p.nums[2] > 6) || s.name == "bcrypt" && rc.p.nums[0] > 6) {
 			rep.bump("c02_skipped_expensive_cost")
 			return
 		}
@@ -442,6 +451,13 @@ func c02Cases(rep *report, r *rng, sink *checkCaseSink, s *schemeOps, h, pw stri
 		}
 		never(e+h[lo:], pw, "cost_neighbour_edit", false)
 	}
+	// whole fragments and group members before the digest dropped, doubled or swapped (a cost field that is deleted must
+	// not leave the previous hash's cost in force)
+	for _, e := range structuralEdits(h[:lo]) {
+		if len(e) > 0 && e[len(e)-1] == h[lo-1] || s.name == "des" || s.name == "desext" {
+			never(e+h[lo:], pw, "structural_edit", false)
+		}
+	}
 	// one symbol inserted or deleted before the digest (a salt or cost of another length): Key may reject it, the
 	// string may be malformed, or another digest results -- never success
 	for i := 1; i <= lo; i++ {
@@ -523,6 +539,48 @@ func c12Coherence(rep *report, sink *checkCaseSink, s *schemeOps) {
 	}
 	// genuine hashes in the variants NewHash never writes (implicit round count, several lanes, legacy prefixes)
 	hs = append(hs, constructedHashes(s, pw)...)
+	// every decimal field of those and of a generated hash rewritten to 0..24 and to its neighbours (explicit zeros,
+	// other versions, clamped or defaulted costs): whatever Check makes of such a string, Params and Key must agree
+	{
+		base := append([]string(nil), constructedHashes(s, pw)...)
+		if g, err := s.newHash(pw, 0); err == nil {
+			base = append(base, g)
+		}
+		cnt := 0
+		for _, b := range base {
+			lo, _ := digestSpan(s.name, b)
+			for _, e := range numericNeighbours(b[:lo]) {
+				if cnt++; cnt > 160 {
+					break
+				}
+				hs = append(hs, e+b[lo:])
+			}
+		}
+	}
+	// what Params returns belongs to the caller: overwriting the returned salt changes neither a later Check of the
+	// same string nor what Params returns next time
+	for _, h := range append(constructedHashes(s, pw), hs[len(hs)-1]) {
+		if rc := recognise(s.name, h); tooExpensive(s.name, rc) || s.name == "bcrypt" && rc.ok && rc.p.nums[0] > 6 {
+			continue
+		}
+		p1, perr := s.params(h)
+		if perr != nil || len(p1.salt) == 0 {
+			continue
+		}
+		e1, pan1 := checkWatch(s, h, pw)
+		orig := string(p1.salt)
+		for i := range p1.salt {
+			p1.salt[i] = 'A'
+		}
+		e2, pan2 := checkWatch(s, h, pw)
+		p2, _ := s.params(h)
+		if fmt.Sprint(e1, pan1) != fmt.Sprint(e2, pan2) || string(p2.salt) != orig {
+			rep.fail(map[string]interface{}{"scheme": s.name, "hash": h, "history": "Params(h); the caller overwrites the salt slice it got; Check(h, pw); Params(h)"},
+				fmt.Sprintf("Check: %v, Params salt %q (as before)", e1, orig), fmt.Sprintf("Check: %v %v, Params salt %q", e2, pan2, p2.salt),
+				"the salt returned by Params shares memory with state that later calls use")
+		}
+		rep.bump("c12_params_result_owned")
+	}
 	// coherence must hold whatever was verified just before: all ordered pairs of a few well-formed hashes of
 	// different shapes (b is judged right after a)
 	{
@@ -558,7 +616,7 @@ func c12Coherence(rep *report, sink *checkCaseSink, s *schemeOps) {
 		}
 	}
 	for _, h := range hs {
-		if rc := recognise(s.name, h); tooExpensive(s.name, rc) {
+		if rc := recognise(s.name, h); tooExpensive(s.name, rc) || s.name == "bcrypt" && rc.ok && rc.p.nums[0] > 6 {
 			continue
 		}
 		for _, p := range []string{pw, "wrong"} {
@@ -624,6 +682,7 @@ func numericNeighbours(h string) []string {
 
 var c02Model *modelProc
 var c02ModelTried bool
+var c02ModelMemo = map[string][]byte{}
 
 // c02ArgonModelKey: the key the extracted model derives for the parameters recognised in an Argon2 string
 func c02ArgonModelKey(pw string, p hparams) ([]byte, bool) {
@@ -641,10 +700,18 @@ func c02ArgonModelKey(pw string, p hparams) ([]byte, bool) {
 	if err != nil {
 		return nil, false
 	}
-	got, err := c02Model.run(fmt.Sprintf("argon2 %d %d %s %s %d %d %d 32", mode, p.nums[3], hx([]byte(pw)), hx(raw), p.nums[1], p.nums[0], p.nums[2]))
+	req := fmt.Sprintf("argon2 %d %d %s %s %d %d %d 32", mode, p.nums[3], hx([]byte(pw)), hx(raw), p.nums[1], p.nums[0], p.nums[2])
+	if k, ok := c02ModelMemo[req]; ok {
+		return k, true
+	}
+	if len(c02ModelMemo) >= 8 {
+		return nil, false // the quick budget for model derivations is spent: judged by the library's own Key as before
+	}
+	got, err := c02Model.run(req)
 	if err != nil || got == "NONE" || got == "BADREQUEST" {
 		return nil, false
 	}
+	c02ModelMemo[req] = unhx(got)
 	return unhx(got), true
 }
 
@@ -663,7 +730,7 @@ func constructedHashes(s *schemeOps, pw string) []string {
 			vfield string
 			m, t   uint32
 			p      uint8
-		}{{"$argon2id$", 0x13, "v=19$", 16, 1, 2}, {"$argon2i$", 0x10, "", 24, 1, 3}, {"$argon2d$", 0x10, "v=16$", 40, 2, 4}} {
+		}{{"$argon2id$", 0x13, "v=19$", 16, 1, 2}, {"$argon2i$", 0x10, "", 24, 1, 3}, {"$argon2d$", 0x10, "v=16$", 32, 1, 4}} {
 			k, err := argon2.Key([]byte(pw), []byte(salt), v.m, v.t, v.p, &argon2.CompatibilityOptions{Prefix: v.prefix, Version: v.ver})
 			if err == nil {
 				out = append(out, fmt.Sprintf("%s%sm=%d,t=%d,p=%d$%s$%s", v.prefix, v.vfield, v.m, v.t, v.p, salt, base64.RawStdEncoding.EncodeToString(k)))
